@@ -10,6 +10,7 @@ import RichchkModel.Generated.Consts
 import RichchkModel.Spec.Consts
 import RichchkModel.Lemmas.AllocPerm
 import RichchkModel.Model.Editors
+import RichchkModel.Model.RichEnc
 namespace Richchk.Props.C09
 open Richchk
 
@@ -101,5 +102,116 @@ example : (allocate Generated.mrgnCfg ((List.range 256).filter (· ≠ 7)) [.fre
     some [.placed 7] := by decide +kernel
 example : (allocate Generated.mrgnCfg ((List.range 256).filter (· ≠ 64)) [.fresh, .carry 3]).toOption.map (·.1) =
     some [.skipped, .skipped] := by decide +kernel
+
+/-! ### switches (the fourth slot table; its rebuild is a loop of its own, `rebuildSwnm.go`) -/
+
+/-- the numbers the switch rebuild handed to switches that carried none -/
+def newSwitchNumbers (ids : List (RSwitch × Nat)) : List Nat :=
+  (ids.filter (fun p => p.1.idx.isNone)).map (·.2)
+
+theorem newSwitchNumbers_cons_none (s : RSwitch) (f : Nat) (ids : List (RSwitch × Nat)) (h : s.idx = none) :
+    newSwitchNumbers ((s, f) :: ids) = f :: newSwitchNumbers ids := by
+  simp [newSwitchNumbers, h]
+
+theorem newSwitchNumbers_cons_some (s : RSwitch) (i f : Nat) (ids : List (RSwitch × Nat)) (h : s.idx = some i) :
+    newSwitchNumbers ((s, f) :: ids) = newSwitchNumbers ids := by
+  simp [newSwitchNumbers, h]
+
+theorem newSwitchNumbers_reverse (ids : List (RSwitch × Nat)) :
+    newSwitchNumbers ids.reverse = (newSwitchNumbers ids).reverse := by
+  simp [newSwitchNumbers, List.filter_reverse, List.map_reverse]
+
+/-- invariant of the placement loop, relative to the set `C` of numbers the switches of the batch carry -/
+theorem rebuildSwnm_go_fresh (C : List Nat) :
+    ∀ (ss : List RSwitch) (free : List Nat) (tbl : List RSwitch) (ids : List (RSwitch × Nat))
+      (out : List RSwitch) (oids : List (RSwitch × Nat)),
+      free.Nodup → (∀ f ∈ free, f ∉ C) → (∀ s ∈ ss, ∀ i, s.idx = some i → i ∈ C) →
+      (newSwitchNumbers ids).Nodup → (∀ n ∈ newSwitchNumbers ids, n ∉ free ∧ n ∉ C) →
+      (∀ p ∈ ids, ∀ i, p.1.idx = some i → p.2 = i ∧ i ∈ C) →
+      rebuildSwnm.go ss free tbl ids = .ok (out, oids) →
+      (newSwitchNumbers oids).Nodup ∧ (∀ n ∈ newSwitchNumbers oids, n ∉ C) ∧
+        (∀ p ∈ oids, ∀ i, p.1.idx = some i → p.2 = i ∧ i ∈ C) := by
+  intro ss
+  induction ss with
+  | nil =>
+    intro free tbl ids out oids _ _ _ hnd hnew hcar h
+    simp only [rebuildSwnm.go, Except.ok.injEq, Prod.mk.injEq] at h
+    obtain ⟨_, rfl⟩ := h
+    refine ⟨?_, ?_, ?_⟩
+    · rw [newSwitchNumbers_reverse]; unfold List.Nodup at *; exact List.pairwise_reverse.mpr (hnd.imp Ne.symm)
+    · intro n hn; rw [newSwitchNumbers_reverse] at hn; exact (hnew n (List.mem_reverse.mp hn)).2
+    · intro p hp; exact hcar p (List.mem_reverse.mp hp)
+  | cons s rest ih =>
+    intro free tbl ids out oids hfn hfc hss hnd hnew hcar h
+    have hss' : ∀ u ∈ rest, ∀ i, u.idx = some i → i ∈ C := fun u hu => hss u (List.mem_cons_of_mem _ hu)
+    simp only [rebuildSwnm.go] at h
+    split at h
+    · rename_i i hi
+      have hiC : i ∈ C := hss s (by simp) i hi
+      have hcar' : ∀ p ∈ (s, i) :: ids, ∀ j, p.1.idx = some j → p.2 = j ∧ j ∈ C := by
+        intro p hp j hj
+        rcases List.mem_cons.mp hp with rfl | hp
+        · simp only at hj; rw [hi] at hj; cases hj; exact ⟨rfl, hiC⟩
+        · exact hcar p hp j hj
+      split at h
+      · simp at h
+      · split at h
+        · exact ih free _ _ out oids hfn hfc hss' (by rw [newSwitchNumbers_cons_some s i i ids hi]; exact hnd)
+            (by rw [newSwitchNumbers_cons_some s i i ids hi]; exact hnew) hcar' h
+        · exact ih free _ _ out oids hfn hfc hss' (by rw [newSwitchNumbers_cons_some s i i ids hi]; exact hnd)
+            (by rw [newSwitchNumbers_cons_some s i i ids hi]; exact hnew) hcar' h
+    · rename_i hnone
+      split at h
+      · simp at h
+      · rename_i f fs
+        have hf : f ∉ fs := (List.nodup_cons.mp hfn).1
+        have hfs : fs.Nodup := (List.nodup_cons.mp hfn).2
+        refine ih fs _ _ out oids hfs (fun x hx => hfc x (List.mem_cons_of_mem _ hx)) hss' ?_ ?_ ?_ h
+        · rw [newSwitchNumbers_cons_none s f ids hnone]
+          exact List.nodup_cons.mpr ⟨fun hm => (hnew f hm).1 (by simp), hnd⟩
+        · intro n hn
+          rw [newSwitchNumbers_cons_none s f ids hnone] at hn
+          rcases List.mem_cons.mp hn with rfl | hn
+          · exact ⟨hf, hfc _ (by simp)⟩
+          · exact ⟨fun hm => (hnew n hn).1 (List.mem_cons_of_mem _ hm), (hnew n hn).2⟩
+        · intro p hp j hj
+          rcases List.mem_cons.mp hp with rfl | hp
+          · simp only at hj; rw [hnone] at hj; cases hj
+          · exact hcar p hp j hj
+
+/-- **C09 for switches**: in a successful switch rebuild, the numbers handed to switches that carried none are
+pairwise different, and none of them is the number of a switch that carries one (named in the stored table or
+referred to by number) — for every rich map and every iteration order; a switch that carries a number keeps it -/
+theorem c09_new_switch_numbers_fresh {cfg : RichCfg} {secs : List RSection} {order : Option (List Nat)}
+    {tbl : List RSwitch} {ids : List (RSwitch × Nat)}
+    (h : rebuildSwnm cfg secs order = .ok (tbl, ids)) :
+    (newSwitchNumbers ids).Nodup ∧
+    (∀ p ∈ ids, ∀ i, p.1.idx = some i → p.2 = i) ∧
+    (∀ n ∈ newSwitchNumbers ids, ∀ p ∈ ids, ∀ i, p.1.idx = some i → n ≠ i) := by
+  have fin : ∀ (ss : List RSwitch),
+      rebuildSwnm.go ss ((List.range cfg.switchSlots).filter fun i => !(ss.filterMap (·.idx)).contains i)
+        ((List.range cfg.switchSlots).map fun i => (⟨.null, some i, 0⟩ : RSwitch)) [] = .ok (tbl, ids) →
+      (newSwitchNumbers ids).Nodup ∧ (∀ p ∈ ids, ∀ i, p.1.idx = some i → p.2 = i) ∧
+        (∀ n ∈ newSwitchNumbers ids, ∀ p ∈ ids, ∀ i, p.1.idx = some i → n ≠ i) := by
+    intro ss hgo
+    obtain ⟨h1, h2, h3⟩ := rebuildSwnm_go_fresh (ss.filterMap (·.idx)) ss _ _ [] tbl ids
+      (List.filter_sublist.nodup List.nodup_range)
+      (by intro f hf hm
+          have := (List.mem_filter.mp hf).2
+          simp only [Bool.not_eq_true', List.contains_eq_mem, decide_eq_false_iff_not] at this
+          exact this hm)
+      (by intro s hs i hi; exact List.mem_filterMap.mpr ⟨s, hs, hi⟩)
+      (by simp [newSwitchNumbers]) (by simp [newSwitchNumbers]) (by simp) hgo
+    refine ⟨h1, fun p hp i hi => (h3 p hp i hi).1, fun n hn p hp i hi hni => ?_⟩
+    exact h2 n hn (hni ▸ (h3 p hp i hi).2)
+  unfold rebuildSwnm at h
+  simp only at h
+  split at h
+  · split at h
+    · simp at h
+    · exact fin _ h
+  · split at h
+    · simp at h
+    · exact fin _ h
 
 end Richchk.Props.C09
